@@ -1,6 +1,7 @@
 CONSTANTS Urls <- UrlsC
           Texts <- TextsC
           Cfgs <- CfgsC
+          ForgetIdentRecord = TRUE
           ConfigRebuilds = TRUE
           MaxMsgs = 3
           MaxInFlight = 2
